@@ -246,6 +246,53 @@ def run(chk, facts):
                if folds else "parse_tuple no longer folds a 1-tuple: `(e)` would be printed as `(e)` = e in Python, but the premise changed - review", facts.loc_of(pt))
     except AnchorError as e:
         chk.anchor_fail("R-C10-4", e)
+    # a right operand on the chain level of its parent is printed bare because *the parser* nests unparenthesised chains to the right.  That
+    # premise holds only for operator nodes that come from the parser: every construction of a chain-level Core operator in generate:: sits
+    # in the conversion arm of the NodeTy node of the same name (one node in, one node out) - a generator that builds `Core::And` itself
+    # (conditions folded into one conjunction) creates left-nested trees that the printer flattens to another grouping
+    try:
+        from .c11 import parents_map
+        chainv = set(pm.chain_level) if getattr(pm, "chain_level", None) else set()
+        n_sites = 0
+        bad_sites = []
+        for fn in syn.fns:
+            if not fn["mod"].startswith("generate::") or "test" in fn["mod"] or not fn.get("body") or fn["mod"].startswith("generate::ast"):
+                continue
+            pm_ = None
+            for n in walk(fn["body"]):
+                if n.get("k") == "struct" and n["p"].startswith("Core::") and n["p"].split("::")[-1] in chainv:
+                    n_sites += 1
+                    if pm_ is None:
+                        pm_ = parents_map(fn["body"])
+                    cur, arm_pat = n, None
+                    while True:
+                        par, key = pm_.get(id(cur), (None, None))
+                        if par is None:
+                            break
+                        if par.get("k") == "match":
+                            for a_ in par["arms"]:
+                                if a_ is cur or a_["body"] is cur or any(x is cur for x in walk(a_["body"])):
+                                    arm_pat = src(a_["pat"], -30)
+                            if arm_pat and "NodeTy::" in arm_pat:
+                                break
+                        cur = par
+                    v_ = n["p"].split("::")[-1]
+                    REVIEWED_SYNTH = {("generate::convert::range_slice::convert_range_slice", "Core::Add"):
+                                      "`to + 1` of an inclusive range: the synthesised right operand is the literal 1 (R-C01-5), the left one is protected by the precedence table",
+                                      ("generate::convert::range_slice::convert_range_slice", "Core::Sub"):
+                                      "`to - 1` of an exclusive slice (known finding D35 is about its value, not its grouping): right operand literal 1, left operand protected"}
+                    # `l ? r` is parsed on the level of and / or (parse_level_7, right-nested like them) and converted to `or` (its meaning: finding D34)
+                    SAME_LEVEL_SOURCE = {"Or": ("NodeTy::Or", "NodeTy::Question")}
+                    from_parser = arm_pat and any(a_.replace(" ", "") in arm_pat.replace(" ", "") for a_ in SAME_LEVEL_SOURCE.get(v_, (f"NodeTy::{v_}",)))
+                    if not from_parser and (fn["qual"], n["p"]) not in REVIEWED_SYNTH:
+                        bad_sites.append((fn["qual"], n["p"], arm_pat))
+        chk.ob("R-C10-4", "chain-operators-come-from-the-parser", not bad_sites and n_sites >= len(chainv) - 2,
+               f"all {n_sites} constructions of chain-level operators in generate:: convert the parser's node of the same name" if not bad_sites and n_sites >= len(chainv) - 2 else
+               (f"{bad_sites[0][0]} builds `{bad_sites[0][1]}` outside the conversion of the parser's node of that name (enclosing arm: {str(bad_sites[0][2])[:50]}): the printer prints "
+                "same-level right operands bare on the premise that the parser nested them - a synthesised operator tree is flattened to another grouping" if bad_sites else
+                f"only {n_sites} constructions of chain-level operators found"), None)
+    except AnchorError as e:
+        chk.anchor_fail("R-C10-4", e)
     chk.assume("Python grammar as frozen in tables/python_expr.json (language reference 3.10 §6.17)")
     chk.notes.append(f"C10: {n_tr} (template, hole, child) triples enumerated exhaustively over {len(expr_variants)} expression variants.")
 
